@@ -246,6 +246,22 @@ def find_mark_regex(program: Program) -> MarkRegex:
                     hits.append((f, v))
                 elif isinstance(v, ast.Call) and isinstance(v.func, ast.Attribute) and v.func.attr == "finditer":
                     hits.append((f, v))
+    if not hits:
+        # the marks are collected in another way (a list built from finditer, a comprehension): the one finditer call of the class whose
+        # pattern knows the block start `@` is the mark regex
+        for f in cls.methods.values():
+            for n in own_nodes(f.node):
+                if isinstance(n, ast.Call) and ast.unparse(n.func).endswith("finditer"):
+                    pn = n.args[0] if ast.unparse(n.func) in ("re.finditer", "finditer") and n.args else None
+                    if pn is None and isinstance(n.func, ast.Attribute):
+                        recv = n.func.value
+                        src = mi.assigns.get(recv.id) if isinstance(recv, ast.Name) else cls.class_attrs.get(recv.attr) if isinstance(recv, ast.Attribute) else None
+                        pn = src.args[0] if isinstance(src, ast.Call) and src.args else None
+                    try:
+                        if pn is not None and "@" in str(program.fold(mi, pn)):
+                            hits.append((f, n))
+                    except ValueError:
+                        pass
     if len(hits) != 1:
         raise AnalysisError(f"anchor vanished: expected exactly one `self.<iterator> = ...finditer(...)` in Splitter, found {len(hits)}")
     f, call = hits[0]
